@@ -162,16 +162,19 @@ def analyse(facts, tier):
         if isinstance(s, dict) and s.get('k') == 'ReturnStmt' and s.get('e') is not None:
             v = eng.ev(s['e'], st)
             gf = None
-            probes.setdefault('rets', []).append((s.get('ln'), v))
+            probes.setdefault('rets', []).append((s.get('ln'), v, probes['before_loop'] is None))
         if isinstance(s, dict) and s is loop_node:
             probes['before_loop'] = st.env.get(('v', s_id))
         return orig_stmt(s, st)
     eng.stmt = stmt
     eng.run(g, record=True)
     rets = probes.get('rets', [])
-    if len(rets) < 2 or probes['before_loop'] is None or len(probes['dec']) != 2:
+    if len(rets) < 1 or probes['before_loop'] is None or len(probes['dec']) != 2:
         raise build.AnalysisBroken('C06.R1: could not locate the two returns / the user loop / the per-user decrement (%s)' % {k: (v if k != 'rets' else len(v)) for k, v in probes.items()})
-    idle_ret = rets[0][1]           # the return inside `if(s < 0 && users.empty())`
+    # a channel without users leaves either through a return in front of the user loop (`if(s < 0 && users.empty()) {..; return s;}`)
+    # or through the loop, which does nothing for it: with the score the loop starts from
+    pre = [r_[1] for r_ in rets if r_[2]]
+    idle_ret = V(min(v_.lo for v_ in pre), max(v_.hi for v_ in pre)) if pre else probes['before_loop']
     s0 = probes['before_loop']      # score when the user loop starts (also the result for a channel without users whose release has ended)
     bonus = 0
     seen_ln = set()
@@ -182,7 +185,7 @@ def analyse(facts, tier):
         bonus += max(0, v.hi)
     ped, key = probes['dec']['pedal-held'], probes['dec']['key-down']
     # a channel without users: either the early return, or (release ended, s >= 0) the unchanged s0 restricted to s >= 0
-    min_idle = min(idle_ret.lo, 0)
+    min_idle = min(idle_ret.lo, 0 if pre else s0.lo)
     max_ped1 = s0.hi - ped.lo + bonus
     min_ped1 = s0.lo - ped.hi
     max_key1 = s0.hi - key.lo + bonus
@@ -281,7 +284,9 @@ def analyse(facts, tier):
                     rec2(v)
     rec2(non.tree)
     lp = min(loops, key=lambda l: len(str(l))) if loops else None
-    okb = lp is not None and mentions(lp['cond'], member_named('m_numChannels')) and strip(lp['cond']).get('op') == '<'
+    sd_non = single_defs(non.d)
+    # the bound may be a local that holds the channel count (defined once, never written)
+    okb = lp is not None and mentions(subst(lp['cond'], sd_non), member_named('m_numChannels')) and strip(lp['cond']).get('op') == '<'
     obls.append(Obl('C06.R2', non.name, 'every chip channel is a candidate', '%s:%s' % (non.file, lp.get('ln') if lp else non.d['line']), 'discharged' if okb else 'finding',
                     why='loop variable < m_numChannels' if okb else 'candidate loop does not range over all m_numChannels channels'))
     # the conditions under which a channel is scored, beyond those of the loop itself: exactly "not (second voice and the channel
@@ -328,6 +333,23 @@ def analyse(facts, tier):
         def is_second_voice(lit, neg):
             nn = cmp_norm(lit) if lit[0] == 'cmp' else None
             return bool(nn) and nn[0] == ('!=' if neg else '==') and nn[2] == 1 and strip(nn[1]).get('k') == 'DeclRefExpr'
+        # `a != taken` with `taken = second voice ? <array>[0] : <a value no channel index has>` says the same in one comparison:
+        # for the first voice the test compares a channel index (counted up from 0) with a negative constant
+        if len(extra) == 1 and extra[0][0] == 'cmp' and extra[0][1] == '!=':
+            sides = [strip(extra[0][2]), strip(extra[0][3])]
+            def unc2(e):
+                while e is not None and (e.get('k') or '').endswith('CastExpr'):
+                    e = strip(e.get('e'))
+                return e
+            for me, other in ((sides[0], sides[1]), (sides[1], sides[0])):
+                o = unc2(strip(subst(other, sd_non)))
+                if unc2(me) is not None and unc2(me).get('id') == (iv or {}).get('id') and o is not None and o.get('k') == 'ConditionalOperator':
+                    for arm_prim, arm_none, pol in ((o['l'], o['r'], True), (o['r'], o['l'], False)):
+                        cn_ = const_of(arm_none)
+                        if cn_ is not None and cn_ < 0 and (iv.get('t') or {}).get('u'):
+                            lits = literals(o['cnd'], not pol)
+                            if len(lits) == 1:
+                                extra = [('or', [[lits[0]], [('cmp', '!=', me, arm_prim)]])]
         if len(extra) == 1 and extra[0][0] == 'or' and len(extra[0][1]) == 2 and all(len(a) == 1 for a in extra[0][1]):
             l1, l2 = extra[0][1][0][0], extra[0][1][1][0]
             oks = (is_second_voice(l1, True) and is_primary_test(l2, True)) or (is_second_voice(l2, True) and is_primary_test(l1, True))
